@@ -20,6 +20,7 @@ Supports expressions like:
 import ast
 import re
 import statistics
+import types
 import warnings
 from datetime import date as date_type
 from typing import Any, Dict, List, Optional, Set, Callable, Union
@@ -149,6 +150,17 @@ def parse_expression(expr: str) -> ast.Expression:
 # =============================================================================
 # Expression Evaluator
 # =============================================================================
+
+def _text(value: Any) -> str:
+    """Text of a value handed to a string function.
+
+    A generator expression has no text of its own: str() of it is the interpreter's
+    '<generator object ... at 0x...>', which would end up in tags and fields.
+    """
+    if isinstance(value, types.GeneratorType):
+        raise ExpressionError("expected text, got a generator expression (use a list [...] or next(...))")
+    return str(value)
+
 
 class TransactionContext:
     """
@@ -426,7 +438,7 @@ class TransactionContext:
         if len(args) == 0:
             return self.description.strip()
         elif len(args) == 1:
-            return str(args[0]).strip()
+            return _text(args[0]).strip()
         else:
             raise ExpressionError("trim() requires 0 or 1 arguments: trim() or trim(text)")
 
@@ -439,7 +451,7 @@ class TransactionContext:
         """
         if len(args) != 3:
             raise ExpressionError("regex_replace() requires 3 arguments: regex_replace(text, pattern, replacement)")
-        text, pattern, replacement = str(args[0]), str(args[1]), str(args[2])
+        text, pattern, replacement = _text(args[0]), _text(args[1]), _text(args[2])
         return re.sub(pattern, replacement, text, flags=re.IGNORECASE)
 
     def _fn_uppercase(self, *args) -> str:
@@ -450,7 +462,7 @@ class TransactionContext:
         """
         if len(args) != 1:
             raise ExpressionError("uppercase() requires 1 argument: uppercase(text)")
-        return str(args[0]).upper()
+        return _text(args[0]).upper()
 
     def _fn_lowercase(self, *args) -> str:
         """Convert text to lowercase.
@@ -460,7 +472,7 @@ class TransactionContext:
         """
         if len(args) != 1:
             raise ExpressionError("lowercase() requires 1 argument: lowercase(text)")
-        return str(args[0]).lower()
+        return _text(args[0]).lower()
 
     def _fn_strip_prefix(self, *args) -> str:
         """Remove prefix from text if present.
@@ -470,7 +482,7 @@ class TransactionContext:
         """
         if len(args) != 2:
             raise ExpressionError("strip_prefix() requires 2 arguments: strip_prefix(text, prefix)")
-        text, prefix = str(args[0]), str(args[1])
+        text, prefix = _text(args[0]), _text(args[1])
         if text.upper().startswith(prefix.upper()):
             return text[len(prefix):]
         return text
@@ -483,7 +495,7 @@ class TransactionContext:
         """
         if len(args) != 2:
             raise ExpressionError("strip_suffix() requires 2 arguments: strip_suffix(text, suffix)")
-        text, suffix = str(args[0]), str(args[1])
+        text, suffix = _text(args[0]), _text(args[1])
         if suffix and text.upper().endswith(suffix.upper()):
             return text[:-len(suffix)]
         return text
@@ -916,7 +928,14 @@ class TransactionEvaluator:
         raise ExpressionError(f"Cannot evaluate node type: {type(node).__name__}")
 
     def _eval_Expression(self, node: ast.Expression) -> Any:
-        return self.evaluate(node.body)
+        value = self.evaluate(node.body)
+        if isinstance(value, types.GeneratorType):
+            # A generator expression written as a whole value (a tag, a field, a let
+            # binding) stands for its items: evaluate it here, where an item that
+            # cannot be evaluated is still an expression error, instead of handing the
+            # lazy object to callers that would print or store it.
+            value = list(value)
+        return value
 
     def _eval_Constant(self, node: ast.Constant) -> Any:
         return node.value
@@ -1185,7 +1204,7 @@ class TransactionEvaluator:
             try:
                 arg_value = self.evaluate(node.args[0])
                 # Field exists if it has a non-empty string value
-                return bool(arg_value and str(arg_value).strip())
+                return bool(arg_value and _text(arg_value).strip())
             except ExpressionError:
                 # Field doesn't exist - return False
                 return False
